@@ -635,6 +635,17 @@ class SymCtx:
                 self.queries += 1
                 self.solver_s += time.time() - t0
                 return z3.unsat
+        # relaxation without the defining equations of the square roots (subset of the constraints: unsat is conclusive)
+        relaxed = [a for a in chosen if not (z3.is_eq(a) and _is_nonlinear(a) and any("sqrt!" in v for v in _vars(a)))]
+        if len(relaxed) < len(chosen):
+            sr = z3.Solver()
+            sr.set("timeout", min(2000, timeout_ms))
+            sr.add(relaxed)
+            sr.add(term)
+            if sr.check() == z3.unsat:
+                self.queries += 1
+                self.solver_s += time.time() - t0
+                return z3.unsat
         sv = z3.Solver()
         sv.set("timeout", timeout_ms)
         sv.add(chosen)
@@ -1109,6 +1120,21 @@ class SymCtx:
         # fresh non-incremental solver on the cone of influence of the goal (assertions that share
         # variables with it, transitively): pure-real slices let z3 use its nlsat strategy
         chosen, vs = self._cone([goal])
+        # relaxation first: without the defining equations r*r = e of the square roots (a subset of the path condition, so
+        # `unsat` is conclusive). Orderings and sums of lengths are linear in the root variables and are decided in
+        # milliseconds this way, where nlsat needs many seconds on the full slice.
+        relaxed = [a for a in chosen if not (z3.is_eq(a) and _is_nonlinear(a) and any("sqrt!" in v for v in _vars(a)))]
+        if len(relaxed) < len(chosen):
+            sr = z3.Solver()
+            sr.set("timeout", min(5000, self.opts.oblig_timeout_ms))
+            sr.add(relaxed)
+            sr.add(z3.Not(goal))
+            t1 = time.time()
+            rr = sr.check()
+            self.queries += 1
+            self.solver_s += time.time() - t1
+            if rr == z3.unsat:
+                return rr, None, ""
         solver = z3.Solver()
         solver.set("timeout", self.opts.oblig_timeout_ms)
         solver.add(chosen)
